@@ -235,11 +235,15 @@ class Sim:
         me = self.current
         if _threading.current_thread() is not (me.real if me.real is not None else _MAIN_REAL[0]):
             # a thread that is not holding the baton must never get here
+            from .runner import flag_harness_error
+            flag_harness_error("scheduler invariant broken: yield from a thread without the baton")
             raise RuntimeError("scheduler invariant broken: yield from a thread without the baton")
         if self.killing and me is not self.main:
             raise SimKilled()
         self.step += 1
         if self.step > STEP_CAP:
+            from .runner import flag_harness_error
+            flag_harness_error("scheduler step cap (%d) reached" % STEP_CAP)      # a harness limit, not a verdict
             raise SimDeadlock("step cap reached")
         label = None
         if kind == "line":
